@@ -186,6 +186,12 @@ impl PrimitiveKind {
     }
 
     pub fn can_apply_binary_op(&self, op: BinOp, to: PrimitiveKind) -> bool {
+        //a right operand whose type is only known at runtime (a member of a
+        //family declared with different domains, like x_0 as Boolean and x_1 as
+        //Real) is accepted just like a left one, it fails at runtime if wrong
+        if to.is_any() && !matches!(self, PrimitiveKind::Undefined) {
+            return true;
+        }
         match self {
             PrimitiveKind::Any => true, //make it fail at runtime
             PrimitiveKind::Undefined => false,
